@@ -32,6 +32,8 @@ def run(ctx):
     shufalg.edges(ctx, facts, "TRANSFER")
     shufalg.tags(ctx, facts, "TAG")
     shufalg.tag_generation(ctx, facts, "TAG")
+    from rules import C19
+    C19.core(ctx, facts)               # every mask-and-permute round moves rows with reshard_iter: nothing lost, duplicated or filed under the wrong origin
     fields(ctx, facts)
     tag_consts(ctx, facts)
     key_cover(ctx, facts)
